@@ -61,13 +61,20 @@ theorem lookup_mem {ss : List (Token × Sess)} {t : Token} {se : Sess} (h : look
 
 theorem runQ_inst (se : Sess) (d : List (Nat × Int)) (q : Q) :
     (runQ se d q).1.inst = se.inst ∧ (runQ se d q).1.backing = se.backing := by
-  cases q <;> simp [runQ]
+  cases q <;> simp only [runQ] <;> (try split) <;> simp
 
 /-- data rows of every other instance are untouched by a statement -/
 theorem runQ_data_frame (se : Sess) (d : List (Nat × Int)) (q : Q) (i : Nat) (hi : i ≠ se.inst) :
     (runQ se d q).2.1.filter (·.1 == i) = d.filter (·.1 == i) := by
-  cases q <;> simp [runQ, List.filter_append]
-  intro h; exact absurd h.symm hi
+  have hne : ¬ se.inst = i := fun h => hi h.symm
+  cases q <;> simp only [runQ] <;> (try split) <;> simp [List.filter_append, hne]
+
+/-- inside an explicit transaction nothing but COMMIT changes the committed data -/
+theorem runQ_tx_data (se : Sess) (d : List (Nat × Int)) (q : Q) (h : se.tx.isSome) (hq : q ≠ .commit) :
+    (runQ se d q).2.1 = d := by
+  cases hx : se.tx with
+  | none => rw [hx] at h; cases h
+  | some w => cases q <;> simp only [runQ, hx] <;> first | rfl | exact absurd rfl hq
 
 structure Inv (s : Srv) : Prop where
   nodup : (s.sessions.map (·.1)).Nodup
